@@ -81,7 +81,7 @@ Definition run_chain (l : list Z) : list Z :=
     let f := {| sr_stream := s1; sr_script := sc1; sr_log := [] |} in
     let rw := ({| sr_stream := s2; sr_script := sc2; sr_log := [] |}, {| sw_script := ws; sw_log := [] |}) in
     if variant =? 0 then chain_ops (S (length ops)) (zlen s1) (zlen s2) (chain_new f rw) ops
-    else if variant =? 2 then
+    else if (variant =? 2) || (variant =? 3) then      (* 3: as 2; the harness goes through the single-slice vectored entry points *)
       chain_ops (S (length ops)) (zlen s1) (zlen s2) (chain_new f rw) ops ++ [-8] ++
       stdchain_ops (S (length ops)) (zlen s1) (zlen s2) {| sc_done_first := false; sc_first := f; sc_second := rw |} ops
     else stdchain_ops (S (length ops)) (zlen s1) (zlen s2) {| sc_done_first := false; sc_first := f; sc_second := rw |} ops
@@ -139,7 +139,7 @@ Definition run_take (l : list Z) : list Z :=
     let '(ws, ops) := take_wscript t4 in
     let rw := ({| sr_stream := s2; sr_script := sc2; sr_log := [] |}, {| sw_script := ws; sw_log := [] |}) in
     if variant =? 0 then take_ops (S (length ops)) (zlen s2) (take_new rw limit) ops
-    else if variant =? 2 then
+    else if (variant =? 2) || (variant =? 3) then
       take_ops (S (length ops)) (zlen s2) (take_new rw limit) ops ++ [-8] ++
       stdtake_ops (S (length ops)) (zlen s2) {| st_limit := limit; st_inner := rw |} ops
     else stdtake_ops (S (length ops)) (zlen s2) {| st_limit := limit; st_inner := rw |} ops
